@@ -293,6 +293,9 @@ PBESPY = "lib/Crypto/IO/_PBES.py"
 M("c08.pbes2.reader.aes192gcm.keysize", "C08", PBESPY, "            cipher_mode = AES.MODE_GCM\n            key_size = 24\n            cipher_param = 'nonce'", "            cipher_mode = AES.MODE_GCM\n            key_size = 32\n            cipher_param = 'nonce'", "K-pw|pbes2.roundtrip")
 M("c08.pbes2.writer.scrypt.params", "C08", PBESPY, "                        DerInteger(scrypt_r),\n                        DerInteger(scrypt_p)", "                        DerInteger(scrypt_p),\n                        DerInteger(scrypt_r)", "K-pw|pbes2.roundtrip")
 M("c08.hash.new.sha512_224", "C08", "lib/Crypto/Hash/__init__.py", "        return SHA512.new(truncate='224')", "        return SHA512.new(truncate='256')", "K-pw|pbes2.roundtrip")
+M("c17.eccpoint.curve448.revert", "C17", "lib/Crypto/PublicKey/_point.py", "        if self._curve.id in (CurveID.CURVE25519, CurveID.CURVE448):\n            raise ValueError(\"EccPoint cannot be created for Curve25519/Curve448\")", "        if self._curve.id == CurveID.CURVE25519:\n            raise ValueError(\"EccPoint cannot be created for Curve25519\")", "F|rawlib.arity|EccPoint|CURVE448")
+M("c19.ed448.add.wp.revert", "C19", "src/ed448.c", "                       ecpa->wp, ctx);", "                       ecpb->wp, ctx);", "P6-c|c|edwards.points")
+M("c19.pbes.prot_params.pop", "C19", "lib/Crypto/IO/_PBES.py", 'salt = randfunc(prot_params.get("salt_size", 8))', 'salt = randfunc(prot_params.pop("salt_size", 8))', "P4|container|_PBES.PBES2.encrypt")
 RSAPY = "lib/Crypto/PublicKey/RSA.py"
 M("c07.toy.rsa.crt.h", "C07", RSAPY, "h = ((m2 - m1) * self._u) % self._q", "h = ((m1 - m2) * self._u) % self._q", "K-pw|rsa.toy.decrypt")
 M("c07.toy.rsa.crt.abs", "C07", RSAPY, "h = ((m2 - m1) * self._u) % self._q", "h = (abs(m2 - m1) * self._u) % self._q", "K-pw|rsa.toy.decrypt")
